@@ -121,7 +121,7 @@ func (dist *GeneralizedGammaDistribution) SetParameters(parameters Vector) error
 
 func (dist *GeneralizedGammaDistribution) ImportConfig(config ConfigDistribution, t ScalarType) error {
 
-  if parameters, ok := config.GetParametersAsFloats(); !ok {
+  if parameters, ok := config.GetParametersAsFloats(); !ok || len(parameters) < 3 {
     return fmt.Errorf("invalid config file")
   } else {
     a := NewScalar(t, parameters[0])
